@@ -52,10 +52,10 @@ EXPLANATION = ("claimed partial: proof for negotiation, header adjustments and t
                "zlib (the coded form decodes to its input) and the chunk-wise stream assembly are validated with an "
                "independent decoder on every coded body (in-process and end-to-end), not proved")
 
-# Repair proposed for the defect this check reports on the pinned tree: mod_deflate_choose_encoding()
-# ignores the weight parameter, so "Accept-Encoding: gzip;q=0, deflate" is answered with
-# Content-Encoding: gzip (RFC 9110 12.4.2: weight 0 means "not acceptable").  The Lean scanner
-# (Model/Deflate.lean `entries`) models exactly the repaired loop below (git diff against src/mod_deflate.c).
+# D26 (fixed in /repo 2a3a422): mod_deflate_choose_encoding() ignored the weight parameter, so
+# "Accept-Encoding: gzip;q=0, deflate" was answered with Content-Encoding: gzip (RFC 9110 12.4.2: weight 0
+# means "not acceptable").  The repair that landed is the diff below; the Lean scanner (Model/Deflate.lean
+# `entries`) models exactly this loop, so reverting it makes the ae / rs / e2e oracles report q=0 inputs.
 PROPOSED_FIX = r'''
 diff --git a/src/mod_deflate.c b/src/mod_deflate.c
 index 4e8b0f0..5c8d2bd 100644
